@@ -25,6 +25,21 @@ var U = &wl.Universe{
 	Conds: []wl.CondSpec{{}, {Name: "cx", HasCtx: true, X: 1}, {Name: "cx", HasCtx: true, X: 2}, {Name: "cx"}},
 }
 
+// U2: three keys that agree in everything but ONE component the first universe never varies: the relation of
+// a userset user, and the relation of the tuple. (Selected in the second pass of Run and in the worker
+// processes through VERIF_C12_UNIVERSE=2; a recorded case names its universe.)
+var U2 = &wl.Universe{
+	Keys:  []wl.Key{{Obj: "doc:1", Rel: "viewer", User: "group:g#member"}, {Obj: "doc:1", Rel: "viewer", User: "group:g#admin"}, {Obj: "doc:1", Rel: "editor", User: "group:g#member"}},
+	Conds: U.Conds,
+}
+
+func universe() *wl.Universe {
+	if os.Getenv("VERIF_C12_UNIVERSE") == "2" {
+		return U2
+	}
+	return U
+}
+
 var optVals = []string{"", "error", "ignore", "bogus"}
 
 // allEvents: delete lists × write lists × option pairs.
@@ -159,6 +174,7 @@ type Case struct {
 	Mode     string     `json:"mode,omitempty"`
 	Flavour  string     `json:"flavour,omitempty"`
 	Thorough bool       `json:"thorough,omitempty"`
+	Universe int        `json:"universe,omitempty"` // 0/1 = first universe, 2 = U2 (userset-relation / relation siblings)
 
 	Boundary string  `json:"boundary,omitempty"`
 	Readable string  `json:"readable,omitempty"`
@@ -748,6 +764,11 @@ type sink struct {
 }
 
 func (s *sink) report(devs []dev) {
+	for i := range devs {
+		if s.u == U2 {
+			devs[i].c.Universe = 2
+		}
+	}
 	for _, d := range devs {
 		if s.confirmed[d.sig] {
 			s.c.Violate(d.sig, d.desc, d.c)
@@ -958,7 +979,7 @@ const rule = "Part (i): breadth-first over Write histories; a state is (store co
 	"non-trivial = the request passes request validation (reaches datastore.Write)."
 
 func Run(o *core.Options) int {
-	u := U
+	u := universe()
 	start := time.Now()
 	_ = os.MkdirAll("/verif/.build/tmp/c12", 0o755)
 	ctx := context.Background()
@@ -978,6 +999,9 @@ func Run(o *core.Options) int {
 		if err := core.LoadReplay(o.Replay, &c); err != nil {
 			fmt.Fprintln(os.Stderr, "replay:", err)
 			return 2
+		}
+		if c.Universe == 2 {
+			u = U2
 		}
 		devs := runCase(ctx, u, c)
 		r.Eval(1)
@@ -1044,5 +1068,27 @@ func Run(o *core.Options) int {
 	b, _ := json.Marshal(lvCounts)
 	fmt.Printf("C12 %s: states per history length %s, alphabet %d, bfs executions %d, e4 pairs %d, fault runs %d, crash images %d (distinct %d)\n", o.Tier, b, len(p.events),
 		tot.Counts["bfs_executions"], len(p.e4), tot.Counts["e4_fault_runs"], tot.Counts["e4_crash_images_judged"], tot.Counts["e4_crash_images_distinct_bytes_reopened"])
+	// second pass: the sibling universe U2 (keys that differ only in the relation of a userset user / in the
+	// tuple's relation); the worker processes select it through the environment
+	if os.Getenv("VERIF_C12_UNIVERSE") == "" {
+		os.Setenv("VERIF_C12_UNIVERSE", "2")
+		r.Assume("second pass over universe U2: doc:1#viewer@group:g#member, doc:1#viewer@group:g#admin, doc:1#editor@group:g#member (same conditions, same alphabet construction)")
+		cs2, err := wl.RunShards(o, tag, o.Workers, time.Now())
+		os.Unsetenv("VERIF_C12_UNIVERSE")
+		if err != nil {
+			fmt.Fprintln(os.Stderr, "C12:", err)
+			return 2
+		}
+		wl.MergeAll(cs2, r)
+		var n2 int64
+		for _, c := range cs2 {
+			n2 += c.Counts["bfs_executions"]
+			if c.Counts["validation_rejected_with_mutating_statement"] > 0 {
+				r.Violate("validation-rejected-request-issued-mutating-statement", "a request rejected by validation reached EXEC/COMMIT (universe U2)", nil)
+			}
+		}
+		r.Set("universe_U2_bfs_executions", n2)
+		fmt.Printf("C12 %s: universe U2: bfs executions %d\n", o.Tier, n2)
+	}
 	return r.Finish()
 }
